@@ -209,7 +209,7 @@ func c14Gen(c *core.Ctx) {
 		}
 	}
 	// random longer words
-	nr := c.Pick(20000, 500000)
+	nr := c.Pick(20000, 5000000)
 	for i := 0; i < nr; i++ {
 		if !c.Mine() {
 			continue
